@@ -26,6 +26,10 @@ TRUSTED = [
     "Python set/dict semantics: membership by == with consistent hash; dict keeps the first inserted key; insertion order",
     "correspondence harness: rgv/props/C20.py builders, rgv/ser.py serialiser; lint descriptions parsed back to "
     "(kind, output name) with anchored regular expressions",
+    "the command-line glue scripts/recipe_grid_lint.py (one check() per independent recipe of a page, output lines, exit "
+    "status) is OBSERVED by suite 'lintcli' against the documented verdicts recipe by recipe, not modelled in Coq",
+    "lint.check is stateless: every recipe of a sequence is linted after the others in one process (suite 'lint', tag "
+    "after-other-recipes) and must get the verdict it gets alone",
 ]
 ASSUMPTIONS = ["numbers are non-negative with at most 15 significant digits (no float underflow/overflow)",
                "unit names do not contain the final-sigma character (str.lower table)"]
@@ -35,6 +39,9 @@ RULE = ("targeted programs: one or two sub recipes (hidden ingredient / named / 
         "uses inside sub recipes, single uses that fold; plus random programs of gen/programs.py; each at scale None and "
         "at 1-2 scale factors (int, Fraction, float); plus an always-run strict stream (STRICT_INVARIANCE) in which the "
         "verdict kinds must be equal at every scale even through float unit conversions (known finding F20).  "
+        "Also: sequences of 2-3 recipes sharing a value-identical up-front line, each linted after the others in one process; "
+        "tiny scale factors (1e-7, 1e-9); suite 'lintcli': the recipe-grid-lint command on pages of 2-3 independent recipes "
+        "(new-recipe blocks) compared with the documented verdicts recipe by recipe.  "
         "Non-trivial: at least one reference or one lint")
 
 IMPORTS = ["From RG Require Import Model.Recipe Model.Units Model.Lint."]
@@ -207,7 +214,8 @@ def has_floats(recipes: List[Any]) -> bool:
     return any(isinstance(v, float) for v in C03.all_numbers(recipes))
 
 
-def make_case(texts: List[str], recipes: List[Any], k: Optional[Any], tag: str, strict: bool = False) -> Case:
+def make_case(texts: List[str], recipes: List[Any], k: Optional[Any], tag: str, strict: bool = False,
+              after: Optional[List[List[str]]] = None) -> Case:
     """strict: the property's last sentence taken literally - the verdict kinds at scale k must equal those at scale 1
     even when a unit conversion goes through a float factor (the always-run stream STRICT_INVARIANCE and replays of
     inputs that carry "scale"); otherwise invariance is only demanded when every conversion factor is exact."""
@@ -215,6 +223,13 @@ def make_case(texts: List[str], recipes: List[Any], k: Optional[Any], tag: str, 
     viol = None
     target = recipes
     kkey = "scale" if strict else "k"
+    if after:
+        # the verdict on a recipe must not depend on what was linted before it in the same process: lint the earlier
+        # recipes of the sequence first (results discarded), in this very call
+        for prev in after:
+            stp, rp = C08._compile_job(prev)
+            if stp == "ok":
+                run_lint(rp)
     if k is not None:
         try:
             target = [r.scale(k) for r in recipes]
@@ -241,6 +256,12 @@ def make_case(texts: List[str], recipes: List[Any], k: Optional[Any], tag: str, 
         tags += ["lint-" + kn for kn, _ in res[1]] or ["no-lint"]
     if strict:
         tags.append("strict-invariance")
+    if after:
+        tags.append("after-other-recipes")
+        return Case(input={"sources": texts, kkey: c.num_json(k) if k is not None else None, "after": after},
+                    coq_in=f"({kin}, {ser.blocks(recipes)})", coq_out=coq_result(res),
+                    impl=res[1] if res[0] == "exc" else [list(x) for x in res[1]], violation=viol,
+                    nontrivial=True, tags=tags)
     return Case(input={"sources": texts, kkey: c.num_json(k) if k is not None else None},
                 coq_in=f"({kin}, {ser.blocks(recipes)})", coq_out=coq_result(res),
                 impl=res[1] if res[0] == "exc" else [list(x) for x in res[1]], violation=viol,
@@ -465,6 +486,10 @@ HAND_SCALED = [
     (["5 eggs\nfry(1 eggs)\nboil(4 eggs)\nbake(remaining eggs)"], [Fraction(1, 3), Fraction(1, 7), 3]),
     (["45359237g spam\nfry(1lb spam)\nfry(2lb spam)\nfry(99997lb spam)\nbake(remaining spam)"], [Fraction(5, 3), 3]),
     (["55ml spam\nboil(6ml spam)\nboil(15ml spam)\nmix(31ml spam)\nfry(3ml spam)\nbake(rest of the spam)\n"], [Fraction(7, 3)]),
+    # very small positive factors: a known total stays known (C20_scale_invariant_exact holds for EVERY exact k > 0)
+    (["1g spam\nfry(1/2 of spam)\nboil(1/4g spam)"], [Fraction(1, 10 ** 7), Fraction(1, 10 ** 9), 1e-9]),
+    (["300g flour\nmix(100g flour, 2 eggs)\nbake(200 g flour)"], [Fraction(1, 10 ** 9), Fraction(1, 10 ** 7)]),
+    (["4 eggs\nfry(1 eggs)\nboil(3 eggs)"], [Fraction(1, 10 ** 7), 1e-9]),
 ]
 
 
@@ -474,6 +499,123 @@ STRICT_INVARIANCE = [
 ]
 
 
+def build_shared_recipes(rng: random.Random) -> List[List[str]]:
+    """2-3 independent recipes (each a list of block sources) that share a value-identical up-front line such as
+    '2 eggs': some split it correctly, some leave it unused (misspelt later), some use too much."""
+    item = rng.choice(["2 eggs", "300g flour", "1 can of spam", "1/2 l stock", "1.5 kg potatoes"])
+    name = item.split()[-1]
+    other = rng.choice(["1 onion", "100g butter", "3 carrots"])
+    oname = other.split()[-1]
+
+    def one() -> List[str]:
+        k = rng.random()
+        if k < 0.35:        # correct split
+            body = rng.choice([f"fry(1/2 of the {name}, oil)\nboil(remaining {name})",
+                               f"a = whisk(1/2 of the {name}, sugar)\nb = mix(1/2 of the {name}, milk)",
+                               f"mix(1/4 of {name}, salt)\nbake(3/4 of {name})"])
+            lines = f"{item}\n{body}"
+        elif k < 0.7:       # listed, never used again (misspelt)
+            lines = f"{item}\n{other}\nfry({name}x, {oname})"
+        elif k < 0.85:      # used too much / not used up
+            lines = f"{item}\nfry(3/4 of the {name})\nboil({rng.choice(['3/4', '1/8'])} of the {name})"
+        else:               # not mentioned at all in this recipe
+            lines = f"{other}\nchop({oname})"
+        if rng.random() < 0.3:
+            first, rest = lines.split("\n", 1)
+            return [first + "\n", rest + "\n"]          # two blocks of the same recipe
+        return [lines + "\n"]
+    return [one() for _ in range(rng.choice([2, 2, 3]))]
+
+
+# ---------------------------------------------------------------- the recipe-grid-lint command on multi-recipe pages
+
+def page_text(recipes_src: List[List[str]]) -> str:
+    """A Markdown page holding several INDEPENDENT recipes: each starts with a ```new-recipe block (the first with a
+    plain ```recipe block), further blocks of the same recipe are ```recipe blocks."""
+    out = ["# Page for 2\n"]
+    for i, blocks in enumerate(recipes_src):
+        for j, src in enumerate(blocks):
+            lang = "new-recipe" if (j == 0 and i > 0) else "recipe"
+            out.append(f"Part {i + 1}.{j + 1}:\n\n```{lang}\n{src.rstrip(chr(10))}\n```\n")
+    return "\n".join(out)
+
+
+def run_cli(path: str) -> Tuple[Any, List[str]]:
+    """recipe_grid.scripts.recipe_grid_lint.main() on one file: (exit status, printed lines)."""
+    import contextlib
+    import io
+    import sys
+    from recipe_grid.scripts import recipe_grid_lint
+    stdout = io.StringIO()
+    old = sys.argv
+    sys.argv = ["recipe-grid-lint", path]
+    code: Any = None
+    try:
+        with contextlib.redirect_stdout(stdout):
+            try:
+                recipe_grid_lint.main()
+            except SystemExit as e:
+                code = e.code
+    finally:
+        sys.argv = old
+    return code, stdout.getvalue().splitlines()
+
+
+def cli_case(recipes_src: List[List[str]]) -> Case:
+    """The command's printed warnings for a page = the documented verdicts of each independent recipe on it."""
+    import os
+    import shutil
+    import tempfile
+    text = page_text(recipes_src)
+    expected: List[Tuple[str, str]] = []
+    ambiguous = False
+    for blocks in recipes_src:
+        st, recipes = C08._compile_job(blocks)
+        if st != "ok":
+            raise AssertionError(f"page recipe does not compile: {blocks!r}: {recipes}")
+        spec, amb, _fc = lint_spec(recipes)
+        ambiguous = ambiguous or amb
+        expected += spec
+    d = tempfile.mkdtemp(prefix="rgv_c20_")
+    try:
+        path = os.path.join(d, "page.md")
+        with open(path, "w") as f:
+            f.write(text)
+        code, lines = run_cli(path)
+        lines = [ln.replace(path, "page.md") for ln in lines]
+    finally:
+        shutil.rmtree(d, ignore_errors=True)
+    got: List[Tuple[str, str]] = []
+    viol = None
+    for ln in lines:
+        m = re.match(r"^(?P<page>.*?): Warning: (?P<d>.*) \[(?P<k>[a-z_]+)\]$", ln, flags=re.S)
+        pm = PATTERNS[m.group("k")].match(m.group("d")) if m and m.group("k") in PATTERNS else None
+        if pm is None:
+            viol = f"unexpected output line of recipe-grid-lint: {ln!r}"
+            break
+        got.append((m.group("k"), pm.group("n")))
+    if viol is None and not ambiguous:
+        if sorted(got) != sorted(expected):
+            viol = (f"recipe-grid-lint printed {sorted(got)} for a page of {len(recipes_src)} independent recipes whose "
+                    f"documented verdicts, recipe by recipe, are {sorted(expected)}")
+        elif (code == 1) != bool(expected) or code not in (0, 1):
+            viol = f"recipe-grid-lint exit status {code} with {len(expected)} warnings"
+    return Case(input={"cli_page": recipes_src}, coq_in="tt", coq_out="tt", impl={"exit": code, "lines": lines},
+                violation=viol, nontrivial=True,
+                tags=["cli-page", f"recipes-{len(recipes_src)}"] + ["cli-" + k for k, _ in got] or ["cli-clean"])
+
+
+CLI_HAND = [
+    [["2 eggs\nfry(1/2 of the eggs, oil)\nboil(remaining eggs)\n"],
+     ["2 eggs\nmeringue = whisk(1/2 of the eggs, sugar)\nbatter = mix(1/2 of the eggs, flour, milk)\n"]],
+    [["2 eggs\nfry(1/2 of the eggs, oil)\nboil(remaining eggs)\n"], ["2 eggs\n1 can of spam\nfry(egg, spam)\n"]],
+]
+
+
+def mk_cli_suite() -> Suite:
+    return Suite(name="lintcli", imports=[], in_ty="unit", out_ty="unit", check="(fun _ _ => true)", shard=2000)
+
+
 def mk_suite() -> Suite:
     return Suite(name="lint", imports=IMPORTS, in_ty="(option num * list (list node))", out_ty="(lres (list lint))",
                  check="check_lint", show="lint_scaled", shard=60)
@@ -481,13 +623,15 @@ def mk_suite() -> Suite:
 
 def gen_scale(rng: random.Random) -> Any:
     return rng.choice([2, 3, 10, 7, Fraction(1, 2), Fraction(1, 3), Fraction(2, 3), Fraction(1, 10), Fraction(3, 7),
-                       Fraction(5, 4), Fraction(1, 7), Fraction(1, 49), Fraction(7, 3), 0.5, 1.5, 0.1, 3.3])
+                       Fraction(5, 4), Fraction(1, 7), Fraction(1, 49), Fraction(7, 3), 0.5, 1.5, 0.1, 3.3,
+                       Fraction(1, 10 ** 7), Fraction(1, 10 ** 9), Fraction(3, 10 ** 8), 1e-9, 10 ** 6])
 
 
 def suites(tier: str, seed: int) -> List[Suite]:
     su = mk_suite()
+    cli = mk_cli_suite()
     if tier == "replay":
-        return [su]
+        return [su, cli]
     rng = random.Random(seed * 7919 + 20)
     ntarget, nrandom = (350, 150) if tier == "quick" else (6000, 3000)
     from ..gen.programs import gen_program, spell
@@ -503,6 +647,14 @@ def suites(tier: str, seed: int) -> List[Suite]:
     for texts, k in STRICT_INVARIANCE:
         st, recipes = C08._compile_job(texts)
         su.cases.append(make_case(texts, recipes, k, "hand", strict=True))
+    # sequences of recipes linted one after the other in ONE process (this one), sharing value-identical lines
+    for _ in range(40 if tier == "quick" else 600):
+        seq = build_shared_recipes(rng)
+        for i, texts in enumerate(seq):
+            st, recipes = C08._compile_job(texts)
+            if st != "ok":
+                raise AssertionError(f"sequence recipe does not compile: {texts!r}: {recipes}")
+            su.cases.append(make_case(texts, recipes, None, "sequence", after=seq[:i]))
     results = C08.compile_many([t for t, _ in jobs])
     for (texts, tag), (st, recipes) in zip(jobs, results):
         if st != "ok":
@@ -512,13 +664,23 @@ def suites(tier: str, seed: int) -> List[Suite]:
         su.cases.append(make_case(texts, recipes, None, tag))
         for _ in range(2 if tag != "random-program" else 1):
             su.cases.append(make_case(texts, recipes, gen_scale(rng), tag))
-    return [su]
+    # the command itself, on pages with several independent recipes
+    for page in CLI_HAND:
+        cli.cases.append(cli_case(page))
+    for _ in range(40 if tier == "quick" else 400):
+        cli.cases.append(cli_case(build_shared_recipes(rng)))
+    return [su, cli]
 
 
 def replay(inp: Any) -> Case:
+    if isinstance(inp, dict) and "cli_page" in inp:
+        return cli_case(inp["cli_page"])
     st, val = C08._compile_job(inp["sources"])
     if st != "ok":
         raise ValueError(f"sources no longer compile: {val}")
+    if inp.get("after"):
+        k = c.num_unjson(inp["k"]) if inp.get("k") is not None else None
+        return make_case(inp["sources"], val, k, "replay", after=inp["after"])
     if inp.get("scale") is not None:      # {"sources": [...], "scale": num}: invariance demanded literally
         return make_case(inp["sources"], val, c.num_unjson(inp["scale"]), "replay", strict=True)
     k = c.num_unjson(inp["k"]) if inp.get("k") is not None else None
